@@ -114,8 +114,18 @@ def build_argparser(ctx):
     m = re.search(r'int\s+TransformationManager::ErrorInvalidCounter\s*=\s*(-?\d+)\s*;', open(os.path.join(repo, 'clang_delta', 'TransformationManager.cpp')).read())
     if not m:
         return None, 'TransformationManager::ErrorInvalidCounter not found'
+    tm_src = open(os.path.join(repo, 'clang_delta', 'TransformationManager.cpp')).read()
+    mv = re.search(r'\nbool\s+TransformationManager::verify\s*\(', tm_src)
+    if not mv:
+        return None, 'TransformationManager::verify not found'
+    i = tm_src.index('{', mv.end())
+    depth, j = 1, i + 1
+    while depth and j < len(tm_src):
+        depth += {'{': 1, '}': -1}.get(tm_src[j], 0)
+        j += 1
     with open(os.path.join(d, 'consts.cpp'), 'w') as f:
         f.write('#include "TransformationManager.h"\nint TransformationManager::ErrorInvalidCounter = %s;\n' % m.group(1))
+        f.write('// TransformationManager::verify, verbatim from clang_delta/TransformationManager.cpp\n' + tm_src[mv.start():j] + '\n')
     r = subprocess.run(['g++', '-std=c++17', '-O0', '-w', '-iquote', stubs, '-I', stubs, '-o', 'argp', 'ClangDelta.cpp', 'consts.cpp'], cwd=d, capture_output=True, text=True, timeout=300)
     if r.returncode != 0:
         return None, r.stderr[-1500:]
@@ -145,7 +155,7 @@ def counter_arguments(ctx):
     if exe is None:
         ctx.broke('translator', 'clang_delta/ClangDelta.cpp against the stand-in manager', f'cannot build the command-line parser: {info}')
         return
-    cases = []
+    cases, cases_to = [], []
     for which in ('counter', 'to-counter'):
         for v in ARG_VALUES:
             got, r = run_argparser(exe, which, v)
@@ -159,14 +169,39 @@ def counter_arguments(ctx):
                     ctx.violation('counter-argument-misread', f'clang_delta --{which}={v!r}: the transformation is handed {got[1]}' +
                                   (f'; the argument denotes {d}' if d is not None else '; the argument is not a number') +
                                   ' (a counter beyond the number of instances can look like a valid one)', rep)
-            elif d is not None and -2 ** 31 <= d < 2 ** 31:
+            elif d is not None and -2 ** 31 <= d < 2 ** 31 and (d >= 1 if which == 'counter' else True):
                 ctx.violation('counter-argument-refused', f'clang_delta --{which}={v!r} is refused (exit {got[1]}) although it denotes {d}', rep)
             elif got[1] != info % 256:
                 ctx.violation('counter-argument-wrong-exit', f'clang_delta --{which}={v!r}: refused with exit {got[1]}, the invalid-counter exit is {info}', rep)
             enc = '[' + ';'.join(str(ord(ch)) for ch in v) + ']%N' if v else '(@nil N)'
-            cases.append((enc, [1, got[1]] if got[0] == 'ok' else [0]))
-    bad = coq.corr_eval('c19argv', ['From Coq Require Import List NArith ZArith.', 'Import ListNotations.', 'From CV Require Import Base.Corr ClangDelta.ArgParse.'], 'argv_case', cases, shard=200)
-    ctx.corr_cases += len(cases)
+            (cases if which == 'counter' else cases_to).append((enc, [1, got[1]] if got[0] == 'ok' else [0]))
+    # the manager's own sanity check of the pair (real TransformationManager::verify): every range the binary-search driver can
+    # ask for (1 <= counter <= to-counter, a single instance k..k included) is let through; a counter below 1 or a to-counter
+    # below the counter is refused with the invalid-counter exit
+    import subprocess
+    vcases = []
+    for c_, t_ in [(1, 1), (2, 2), (5, 5), (1, 2), (1, 8), (3, 4), (4, 3), (2, 1), (0, 1), (0, 0), (-1, 3), (1, 0), (1, -1), (3, -5), (7, None), (0, None), (-2, None)]:
+        args = [exe, '--transformation=x', f'--counter={c_}'] + ([f'--to-counter={t_}'] if t_ is not None else []) + ['f.c']
+        r = subprocess.run(args, capture_output=True, text=True, timeout=20)
+        ok_ = 'PARSED' in r.stdout
+        want_ = c_ >= 1 and (t_ is None or t_ <= 0 or t_ >= c_)
+        ctx.evaluations += 1
+        ctx.count('command-line:verify(counter, to-counter)')
+        if ok_ != want_:
+            ctx.violation('counter-pair-' + ('refused' if want_ else 'accepted'), f'clang_delta --counter={c_}' + (f' --to-counter={t_}' if t_ is not None else '') +
+                          f': {"let through" if ok_ else "refused (exit %d)" % r.returncode} by TransformationManager::verify; ' +
+                          ('the binary-search driver asks for exactly such ranges' if want_ else 'such a pair is not a range'), {'argument': f'--counter={c_} --to-counter={t_}', 'kind': 'argv'})
+        elif not ok_ and r.returncode != info % 256:
+            ctx.violation('counter-argument-wrong-exit', f'--counter={c_} --to-counter={t_}: refused with exit {r.returncode}, the invalid-counter exit is {info}', {'argument': f'--counter={c_} --to-counter={t_}', 'kind': 'argv'})
+        vcases.append((f'(({c_})%Z, ({t_ if t_ is not None else -1})%Z)', [1 if ok_ else 0]))
+    badv = coq.corr_eval('c19verify', ['From Coq Require Import List NArith ZArith.', 'Import ListNotations.', 'From CV Require Import Base.Corr ClangDelta.ArgParse.'], 'verify_case', vcases, shard=200)
+    ctx.corr_cases += len(vcases)
+    ctx.corr_disagree += len(badv)
+    for b in badv[:5]:
+        ctx.broke('correspondence', 'TransformationManager::verify vs ArgParse.verify_ok', f'pair {vcases[b][0]}: implementation {vcases[b][1]}')
+    bad = coq.corr_eval('c19argv', ['From Coq Require Import List NArith ZArith.', 'Import ListNotations.', 'From CV Require Import Base.Corr ClangDelta.ArgParse.'], 'argv_counter_case', cases, shard=200)
+    bad += coq.corr_eval('c19argvt', ['From Coq Require Import List NArith ZArith.', 'Import ListNotations.', 'From CV Require Import Base.Corr ClangDelta.ArgParse.'], 'argv_to_counter_case', cases_to, shard=200)
+    ctx.corr_cases += len(cases) + len(cases_to)
     ctx.corr_disagree += len(bad)
     for b in bad[:5]:
         ctx.broke('correspondence', 'counter argument parser (ClangDelta.cpp) vs ArgParse.parse_counter', f'argument {ARG_VALUES[b % len(ARG_VALUES)]!r}: implementation {cases[b][1]}')
